@@ -9,74 +9,74 @@ import (
 	"github.com/rminnich/go9p/vs"
 )
 
-func LoadUint32(a *uint32) uint32 { vs.AtomicPoint(unsafe.Pointer(a)); return real.LoadUint32(a) }
-func LoadInt32(a *int32) int32    { vs.AtomicPoint(unsafe.Pointer(a)); return real.LoadInt32(a) }
-func LoadUint64(a *uint64) uint64 { vs.AtomicPoint(unsafe.Pointer(a)); return real.LoadUint64(a) }
-func LoadInt64(a *int64) int64    { vs.AtomicPoint(unsafe.Pointer(a)); return real.LoadInt64(a) }
+func LoadUint32(a *uint32) uint32 { vs.AtomicPoint(unsafe.Pointer(a), 4, false); return real.LoadUint32(a) }
+func LoadInt32(a *int32) int32    { vs.AtomicPoint(unsafe.Pointer(a), 4, false); return real.LoadInt32(a) }
+func LoadUint64(a *uint64) uint64 { vs.AtomicPoint(unsafe.Pointer(a), 8, false); return real.LoadUint64(a) }
+func LoadInt64(a *int64) int64    { vs.AtomicPoint(unsafe.Pointer(a), 8, false); return real.LoadInt64(a) }
 func StoreUint32(a *uint32, v uint32) {
-	vs.AtomicPoint(unsafe.Pointer(a))
+	vs.AtomicPoint(unsafe.Pointer(a), 4, true)
 	real.StoreUint32(a, v)
 }
-func StoreInt32(a *int32, v int32)    { vs.AtomicPoint(unsafe.Pointer(a)); real.StoreInt32(a, v) }
-func StoreUint64(a *uint64, v uint64) { vs.AtomicPoint(unsafe.Pointer(a)); real.StoreUint64(a, v) }
-func StoreInt64(a *int64, v int64)    { vs.AtomicPoint(unsafe.Pointer(a)); real.StoreInt64(a, v) }
+func StoreInt32(a *int32, v int32)    { vs.AtomicPoint(unsafe.Pointer(a), 4, true); real.StoreInt32(a, v) }
+func StoreUint64(a *uint64, v uint64) { vs.AtomicPoint(unsafe.Pointer(a), 8, true); real.StoreUint64(a, v) }
+func StoreInt64(a *int64, v int64)    { vs.AtomicPoint(unsafe.Pointer(a), 8, true); real.StoreInt64(a, v) }
 func AddUint32(a *uint32, d uint32) uint32 {
-	vs.AtomicPoint(unsafe.Pointer(a))
+	vs.AtomicPoint(unsafe.Pointer(a), 4, true)
 	return real.AddUint32(a, d)
 }
-func AddInt32(a *int32, d int32) int32 { vs.AtomicPoint(unsafe.Pointer(a)); return real.AddInt32(a, d) }
+func AddInt32(a *int32, d int32) int32 { vs.AtomicPoint(unsafe.Pointer(a), 4, true); return real.AddInt32(a, d) }
 func AddUint64(a *uint64, d uint64) uint64 {
-	vs.AtomicPoint(unsafe.Pointer(a))
+	vs.AtomicPoint(unsafe.Pointer(a), 8, true)
 	return real.AddUint64(a, d)
 }
-func AddInt64(a *int64, d int64) int64 { vs.AtomicPoint(unsafe.Pointer(a)); return real.AddInt64(a, d) }
+func AddInt64(a *int64, d int64) int64 { vs.AtomicPoint(unsafe.Pointer(a), 8, true); return real.AddInt64(a, d) }
 func SwapUint32(a *uint32, v uint32) uint32 {
-	vs.AtomicPoint(unsafe.Pointer(a))
+	vs.AtomicPoint(unsafe.Pointer(a), 4, true)
 	return real.SwapUint32(a, v)
 }
-func SwapInt32(a *int32, v int32) int32 { vs.AtomicPoint(unsafe.Pointer(a)); return real.SwapInt32(a, v) }
+func SwapInt32(a *int32, v int32) int32 { vs.AtomicPoint(unsafe.Pointer(a), 4, true); return real.SwapInt32(a, v) }
 func CompareAndSwapUint32(a *uint32, o, n uint32) bool {
-	vs.AtomicPoint(unsafe.Pointer(a))
+	vs.AtomicPoint(unsafe.Pointer(a), 4, true)
 	return real.CompareAndSwapUint32(a, o, n)
 }
 func CompareAndSwapInt32(a *int32, o, n int32) bool {
-	vs.AtomicPoint(unsafe.Pointer(a))
+	vs.AtomicPoint(unsafe.Pointer(a), 4, true)
 	return real.CompareAndSwapInt32(a, o, n)
 }
 func CompareAndSwapUint64(a *uint64, o, n uint64) bool {
-	vs.AtomicPoint(unsafe.Pointer(a))
+	vs.AtomicPoint(unsafe.Pointer(a), 8, true)
 	return real.CompareAndSwapUint64(a, o, n)
 }
 func CompareAndSwapInt64(a *int64, o, n int64) bool {
-	vs.AtomicPoint(unsafe.Pointer(a))
+	vs.AtomicPoint(unsafe.Pointer(a), 8, true)
 	return real.CompareAndSwapInt64(a, o, n)
 }
 
 type Bool struct{ v real.Bool }
 
-func (b *Bool) Load() bool   { vs.AtomicPoint(unsafe.Pointer(b)); return b.v.Load() }
-func (b *Bool) Store(x bool) { vs.AtomicPoint(unsafe.Pointer(b)); b.v.Store(x) }
+func (b *Bool) Load() bool   { vs.AtomicPoint(unsafe.Pointer(b), 1, false); return b.v.Load() }
+func (b *Bool) Store(x bool) { vs.AtomicPoint(unsafe.Pointer(b), 1, true); b.v.Store(x) }
 
 type Int32 struct{ v real.Int32 }
 
-func (b *Int32) Load() int32         { vs.AtomicPoint(unsafe.Pointer(b)); return b.v.Load() }
-func (b *Int32) Store(x int32)       { vs.AtomicPoint(unsafe.Pointer(b)); b.v.Store(x) }
-func (b *Int32) Add(x int32) int32   { vs.AtomicPoint(unsafe.Pointer(b)); return b.v.Add(x) }
+func (b *Int32) Load() int32         { vs.AtomicPoint(unsafe.Pointer(b), 4, false); return b.v.Load() }
+func (b *Int32) Store(x int32)       { vs.AtomicPoint(unsafe.Pointer(b), 4, true); b.v.Store(x) }
+func (b *Int32) Add(x int32) int32   { vs.AtomicPoint(unsafe.Pointer(b), 4, true); return b.v.Add(x) }
 
 type Uint32 struct{ v real.Uint32 }
 
-func (b *Uint32) Load() uint32        { vs.AtomicPoint(unsafe.Pointer(b)); return b.v.Load() }
-func (b *Uint32) Store(x uint32)      { vs.AtomicPoint(unsafe.Pointer(b)); b.v.Store(x) }
-func (b *Uint32) Add(x uint32) uint32 { vs.AtomicPoint(unsafe.Pointer(b)); return b.v.Add(x) }
+func (b *Uint32) Load() uint32        { vs.AtomicPoint(unsafe.Pointer(b), 4, false); return b.v.Load() }
+func (b *Uint32) Store(x uint32)      { vs.AtomicPoint(unsafe.Pointer(b), 4, true); b.v.Store(x) }
+func (b *Uint32) Add(x uint32) uint32 { vs.AtomicPoint(unsafe.Pointer(b), 4, true); return b.v.Add(x) }
 
 type Int64 struct{ v real.Int64 }
 
-func (b *Int64) Load() int64       { vs.AtomicPoint(unsafe.Pointer(b)); return b.v.Load() }
-func (b *Int64) Store(x int64)     { vs.AtomicPoint(unsafe.Pointer(b)); b.v.Store(x) }
-func (b *Int64) Add(x int64) int64 { vs.AtomicPoint(unsafe.Pointer(b)); return b.v.Add(x) }
+func (b *Int64) Load() int64       { vs.AtomicPoint(unsafe.Pointer(b), 8, false); return b.v.Load() }
+func (b *Int64) Store(x int64)     { vs.AtomicPoint(unsafe.Pointer(b), 8, true); b.v.Store(x) }
+func (b *Int64) Add(x int64) int64 { vs.AtomicPoint(unsafe.Pointer(b), 8, true); return b.v.Add(x) }
 
 type Uint64 struct{ v real.Uint64 }
 
-func (b *Uint64) Load() uint64        { vs.AtomicPoint(unsafe.Pointer(b)); return b.v.Load() }
-func (b *Uint64) Store(x uint64)      { vs.AtomicPoint(unsafe.Pointer(b)); b.v.Store(x) }
-func (b *Uint64) Add(x uint64) uint64 { vs.AtomicPoint(unsafe.Pointer(b)); return b.v.Add(x) }
+func (b *Uint64) Load() uint64        { vs.AtomicPoint(unsafe.Pointer(b), 8, false); return b.v.Load() }
+func (b *Uint64) Store(x uint64)      { vs.AtomicPoint(unsafe.Pointer(b), 8, true); b.v.Store(x) }
+func (b *Uint64) Add(x uint64) uint64 { vs.AtomicPoint(unsafe.Pointer(b), 8, true); return b.v.Add(x) }
